@@ -6,6 +6,11 @@
 use sodg::{Hex, Label, Sodg};
 use std::str::FromStr;
 
+extern "C" {
+    /// answered by the executor: the predicate of `slice_some` for the edge (from, to, label)
+    fn verif_pred(from: usize, to: usize, kind: u32, words: *const u64) -> bool;
+}
+
 macro_rules! inst {
     ($n:literal) => {
         const _: () = {
@@ -130,6 +135,45 @@ macro_rules! inst {
                         true
                     }
                     Err(_) => false,
+                }
+            }
+            #[export_name = concat!("s", stringify!($n), "_slice")]
+            pub unsafe extern "C" fn slice(g: &G, v: usize, out: *mut G) -> bool {
+                match g.slice(v) {
+                    Ok(x) => {
+                        out.write(x);
+                        true
+                    }
+                    Err(_) => false,
+                }
+            }
+            /// `slice_some` with an arbitrary predicate: every question the real code asks is
+            /// forwarded to the executor (`verif_pred` is an external symbol it answers with a
+            /// solver variable per edge).
+            #[export_name = concat!("s", stringify!($n), "_slice_some")]
+            pub unsafe extern "C" fn slice_some(g: &G, v: usize, out: *mut G) -> bool {
+                let r = g.slice_some(v, |f, t, l| {
+                    let mut w = [0_u64; 8];
+                    let k = label_view(&l, &mut w);
+                    verif_pred(f, t, k, w.as_ptr())
+                });
+                match r {
+                    Ok(x) => {
+                        out.write(x);
+                        true
+                    }
+                    Err(_) => false,
+                }
+            }
+            /// `merge`: 0 = Ok, 1 = Err (the error text is written to `err`).
+            #[export_name = concat!("s", stringify!($n), "_merge")]
+            pub unsafe extern "C" fn merge(g: &mut G, h: &G, left: usize, right: usize, err: *mut String) -> bool {
+                match g.merge(h, left, right) {
+                    Ok(()) => true,
+                    Err(e) => {
+                        err.write(format!("{e:#}"));
+                        false
+                    }
                 }
             }
             #[export_name = concat!("s", stringify!($n), "_save")]
